@@ -7,7 +7,9 @@ Texts are single tokens: `␣` stands for a blank, `∅` for the empty string.
 ops
 * `safe <name>`                               → SafeURLString
 * `detect <path>`                             → `<configurationId>|<webhookId>`
-* `hook <id> <kind>|<name>|<outcome> …`       → `ok`   kind = v|m; outcome = `<exit>[+<others>]:<file>` with
+* `hook <id> <kind>|<name>|<outcome> …`       → `ok`   kind = v|m; outcome = `<ending>[+<others>]:<file>` with
+     ending = `<n>` the process exits with status n · `k<n>` signal n terminates it (after it wrote its files),
+     optionally `!o` / `!e` / `!oe`: it printed a line on stdout / stderr / both before
      file = `e` empty · `g` malformed · `a;…`/`d;…` valid allowed/denied with `m=<msg>` `w=<w1>~<w2>` `p=<patch>`
      others = `ok…` / `bad…`: the run's metric / object patch operation files can / cannot be applied
 * `reqout <uid> <outcome>`                    → `ok`   for the request with that uid the hook does this instead
@@ -35,12 +37,12 @@ def enc (s : String) : String :=
 
 structure BindingDecl where
   b : Binding
-  out : Outcome
+  out : RunDecl
 
 structure St where
   hooks : List Hook := []
-  outs : List (Nat × Binding × Outcome) := []
-  reqOuts : List (String × Outcome) := []
+  outs : List (Nat × Binding × RunDecl) := []
+  reqOuts : List (String × RunDecl) := []
   /-- overlapping runs: uid, run number, hook -/
   runs : List (String × Nat × Nat) := []
   fs : FileSt := .init
@@ -65,14 +67,22 @@ def parseFile (s : String) : Option FileContent :=
       some (.valid ⟨v == "a", msg, warns, patch⟩)
   | _ => none
 
-def parseOutcome (s : String) : Option Outcome :=
+/-- `<n>` / `k<n>`, optionally followed by `!o`, `!e`, `!oe`: what the process printed on stdout /
+stderr before it ended — part of the input, of no consequence for the answer -/
+def parseEnding (s : String) : Option Ending :=
+  match s.splitOn "!" with
+  | [e] | [e, "o"] | [e, "e"] | [e, "oe"] =>
+    if e.startsWith "k" then (e.drop 1).toString.toNat?.map .signaled else e.toNat?.map .exited
+  | _ => none
+
+def parseOutcome (s : String) : Option RunDecl :=
   match s.splitOn ":" with
   | code :: rest =>
     let (code, others?) : String × Option Bool := match code.splitOn "+" with
       | [c, o] => (c, if o.startsWith "ok" then some true else if o.startsWith "bad" then some false else none)
       | _ => (code, some true)
-    match code.toNat?, parseFile (String.intercalate ":" rest), others? with
-    | some c, some f, some o => some ⟨c == 0, f, o⟩
+    match parseEnding code, parseFile (String.intercalate ":" rest), others? with
+    | some e, some f, some o => some ⟨e, f, o⟩
     | _, _, _ => none
   | _ => none
 
@@ -85,13 +95,13 @@ def parseBinding (s : String) : Option BindingDecl :=
     | _, _ => none
   | _ => none
 
-def runOf (st : St) : Nat → Binding → Outcome := fun h b =>
+def runOf (st : St) : Nat → Binding → RunDecl := fun h b =>
   match st.outs.find? (fun e => e.1 == h && e.2.1 == b) with
   | some e => e.2.2
-  | none => ⟨false, .empty, true⟩
+  | none => ⟨.exited 1, .empty, true⟩
 
 /-- what the hook was told to do for this request -/
-def declaredRun (st : St) (uid : String) : Nat → Binding → Outcome :=
+def declaredRun (st : St) (uid : String) : Nat → Binding → RunDecl :=
   match st.reqOuts.find? (fun e => e.1 == uid) with
   | some e => fun _ _ => e.2
   | none => runOf st
@@ -102,15 +112,16 @@ def fileName (st : St) : Nat → Nat :=
       | some e => e.2.2
       | none => 0)
 
-/-- what the run for this request leaves behind according to the model of the response files: as
-declared, except that the response file is what `ResponseFromFile` found at the end of the run -/
+/-- what the run for this request leaves behind according to the model of the executor (how the
+process ended → did `RunAndLogLines` return an error) and of the response files: as declared,
+except that the response file is what `ResponseFromFile` found at the end of the run -/
 def effectiveRun (st : St) (uid : String) : Nat → Binding → Outcome :=
   match st.runs.find? (fun e => e.1 == uid) with
   | some e =>
     match st.fs.seen e.2.1 with
-    | x :: _ => fun h b => { declaredRun st uid h b with file := seenFile x }
-    | [] => declaredRun st uid
-  | none => declaredRun st uid
+    | x :: _ => fun h b => { (declaredRun st uid h b).seen with file := seenFile x }
+    | [] => fun h b => (declaredRun st uid h b).seen
+  | none => fun h b => (declaredRun st uid h b).seen
 
 def linkNo (st : St) (h : Nat) (b : Binding) : Nat :=
   (st.hooks.flatMap (fun hk => hk.bindings.map (fun x => (hk.id, x)))).idxOf (h, b)
@@ -293,7 +304,8 @@ def step (st : St) (toks : List String) : St × String :=
   | "oracle" :: "req" :: rest =>
     match parseRequest rest, parseObserved st rest with
     | some (path, req), some (ans, ran) =>
-      match checkObs st.hooks (declaredRun st (uidOf req)) path req ans ran with
+      -- the property reads the run as declared: did the process exit, with status 0
+      match checkObs st.hooks (fun h b => (declaredRun st (uidOf req) h b).spec) path req ans ran with
       | none => (st, "true")
       | some why => (st, "false " ++ why)
     | _, _ => (st, "bad-op")
